@@ -924,6 +924,8 @@ def rich_cfg(**over):
     geom_menu=st.sampled_from([["sphere", "capsule", "box"], ["sphere", "capsule"], ["sphere"]]),
     mocap=st.integers(0, 1),
     sites=1.0,
+    pairs=st.integers(0, 2),
+    excludes=st.integers(0, 1),
   )
   base.update(over)
   return cfg_strategy(**base)
